@@ -321,14 +321,15 @@ class Rec(Val):
 class Opt(Val):
     """Optional[T]: (is_none, payload).  Payloads are normalised in equalities (engine.eq)."""
 
-    def __init__(self, isnone, val):
+    def __init__(self, isnone, val, empty_text=False):
         self.isnone, self.val = isnone, val
+        self.empty_text = empty_text      # a library model's encoding of a text that may be empty: "none" stands for '' (falsy), never for None
 
     def comps(self):
         return [self.isnone] + comps(self.val)
 
     def rebuild(self, cs):
-        return Opt(cs[0], rebuild(self.val, cs[1:]))
+        return Opt(cs[0], rebuild(self.val, cs[1:]), self.empty_text)
 
     def static(self):
         return ("opt", self.val.static() if isinstance(self.val, Val) else str(self.val.sort()))
